@@ -7,7 +7,7 @@ MODULES = ["contracts.c03_folding", "contracts.c04_process", "contracts.c05_rule
 def INCLUDE(name):
     m = re.match(r"(C\d\d)\.", name)
     if m is None:   # inductive loop invariants of functions under a C03 contract
-        return name.startswith("FoldConstantsPass.process_node.loop")
+        return ".loop" in name   # every loop invariant of the scenario modules this check runs
     # inlining a constant-condition If must keep every branch initializer (contract filed under C04: move_initializers)
     return m.group(1) in ("C03", "C09", "C05") or name.startswith("C04.folding.move_initializers.")
 
